@@ -39,21 +39,21 @@ type c30Tok struct {
 	NowNs int64  `json:"now_ns"` // its sub-second part
 	App   string `json:"app"`
 
-	Alg      string `json:"alg"`       // header alg; "-" = absent
-	Kid      int    `json:"kid"`       // 0 id of the signing key, 1 absent, 2 unknown id, 3 id of the other configured key, 4 a JSON number, 5 upper-cased id
-	Kind     int    `json:"kind"`      // 0 "token", 1 absent, 2 "cookie", 3 number, 4 "Token"
-	Signer   int    `json:"signer"`    // key that signs: 0, 1 (configured), 2 (not configured)
-	Sig      int    `json:"sig"`       // 0 proper, 1 one bit flipped, 2 last byte cut, 3 empty, 4 HMAC-SHA256 keyed with the public key, 5 signature of the payload before it was changed
-	SigPos   int    `json:"sig_pos"`   // bit to flip
-	Segments int    `json:"segments"`  // 0 three, 1 signature segment missing, 2 a fourth segment
-	Iss      string `json:"iss"`       // "-" = absent
-	User     string `json:"user"`      // "-" = absent
-	Exp      *int64 `json:"exp"`       // offset to Now in seconds, nil = absent
-	Iat      *int64 `json:"iat"`       //
-	Nbf      *int64 `json:"nbf"`       //
+	Alg      string   `json:"alg"`      // header alg; "-" = absent
+	Kid      int      `json:"kid"`      // 0 id of the signing key, 1 absent, 2 unknown id, 3 id of the other configured key, 4 a JSON number, 5 upper-cased id
+	Kind     int      `json:"kind"`     // 0 "token", 1 absent, 2 "cookie", 3 number, 4 "Token"
+	Signer   int      `json:"signer"`   // key that signs: 0, 1 (configured), 2 (not configured)
+	Sig      int      `json:"sig"`      // 0 proper, 1 one bit flipped, 2 last byte cut, 3 empty, 4 HMAC-SHA256 keyed with the public key, 5 signature of the payload before it was changed
+	SigPos   int      `json:"sig_pos"`  // bit to flip
+	Segments int      `json:"segments"` // 0 three, 1 signature segment missing, 2 a fourth segment
+	Iss      string   `json:"iss"`      // "-" = absent
+	User     string   `json:"user"`     // "-" = absent
+	Exp      *int64   `json:"exp"`      // offset to Now in seconds, nil = absent
+	Iat      *int64   `json:"iat"`      //
+	Nbf      *int64   `json:"nbf"`      //
 	Bits     []string `json:"bits"`
-	Service  bool   `json:"service"`
-	NoClaims bool   `json:"no_claims"` // payload without any registered claim (iss/exp/iat/nbf all absent)
+	Service  bool     `json:"service"`
+	NoClaims bool     `json:"no_claims"` // payload without any registered claim (iss/exp/iat/nbf all absent)
 }
 
 func c30Keys(seed uint64) (pub [3]ed25519.PublicKey, priv [3]ed25519.PrivateKey) {
@@ -315,7 +315,7 @@ func c30BitList(m map[string]struct{}) []string {
 
 func c30GenBits(t *rapid.T, app string) []string {
 	other := []string{"otherapp", "statshouse", app + "x", strings.ToUpper(app), "x" + app, ""}
-	names := []string{"admin", "developer", "view_default", "edit_default", "view_prefix.foo_", "edit_metric.bar", "view_namespace.ns", "x"}
+	names := []string{"admin", "developer", "view_default", "edit_default", "view_prefix.foo_", "edit_metric.bar", "view_namespace.ns", "x", "view_namespace.", "edit_prefix.", "view_metric. "}
 	return rapid.SliceOfN(rapid.Custom(func(t *rapid.T) string {
 		n := rapid.SampledFrom(names).Draw(t, "bit")
 		switch rapid.IntRange(0, 9).Draw(t, "prefix") {
